@@ -267,4 +267,57 @@ def prop(case):
     return Obs(differs and any(in_fo) and not all(in_fo), labels, checks=len(calls) + len(outs))
 
 
-PARTS = [Part('inject', prop, strategy=cases, quick=(8, 500), thorough=(16, 10000))]
+def enum_wide(tier):
+    """rows wider than 2^16 bytes (more than 524288 patterns in one batch)"""
+    for j, sims in enumerate([600000] if tier == 'quick' else [524289, 600000, 1100003]):
+        for m in (2, 4, 8):
+            yield dict(sims=sims, m=m, c_reuse=bool((j + m) & 2), strip_forks=bool(m & 4))
+
+
+def prop_wide(case):
+    from kyupy import bench
+    from kyupy.logic_sim import LogicSim
+    sims, m = case['sims'], case['m']
+    c = bench.parse('input(a,b) output(z) y=AND(a,b) z=NOT(y)')
+    planes = {2: 1, 4: 2, 8: 3}[m]
+    nbytes = (sims + 7) // 8
+    va = ((np.arange(nbytes, dtype=np.uint64) * np.uint64(2654435761)) >> np.uint64(5)).astype(np.uint8)
+    vb = ((np.arange(nbytes, dtype=np.uint64) * np.uint64(40503)) >> np.uint64(2)).astype(np.uint8)
+    names = [n.name for n in c.s_nodes]
+
+    def fresh():
+        s = LogicSim(c, sims, m=m, c_reuse=case['c_reuse'], strip_forks=case['strip_forks'])
+        s.s[0] = 0
+        s.s[0, names.index('a'), 0] = va; s.s[0, names.index('a'), 1] = va          # 0/1 values: planes 0 and 1 equal, no activity
+        s.s[0, names.index('b'), 0] = vb; s.s[0, names.index('b'), 1] = vb
+        return s
+    tail = (1 << (sims - 8 * (nbytes - 1))) - 1
+    calls = []
+    ytarget = c.cells['y'].outs[0].index
+
+    def cb(line, arr):
+        idx = operator.index(line)
+        if not isinstance(arr, np.ndarray) or arr.shape != (planes, nbytes):
+            raise Violation(f'm={m}, {sims} patterns: callback for line {idx} got an array of shape {getattr(arr, "shape", None)}, expected ({planes}, {nbytes})')
+        calls.append(idx)
+        if idx == ytarget:
+            arr[...] = 0xff           # force the AND output to 1 in every pattern
+    s = fresh(); s.s_to_c(); s.c_prop(inject_cb=cb); s.c_to_s()
+    expected_calls = sorted(l.index for l in c.lines if not (case['strip_forks'] and l.driver.kind == '__fork__' and l.driver.name not in ('a', 'b')))
+    if sorted(calls) != expected_calls:
+        raise Violation(f'm={m}, {sims} patterns: callback invoked for lines {sorted(calls)}, the evaluated lines are {expected_calls}')
+    z = np.array(s.s[1, names.index('z'), 0])
+    z[-1] &= tail
+    if np.any(z != 0):
+        bad = int(np.flatnonzero(z)[0])
+        raise Violation(f'm={m}, {sims} patterns: AND output forced to 1 by the callback, but z is 1 in pattern byte {bad} (the overwrite did not reach it)')
+    s0 = fresh(); s0.s_to_c(); s0.c_prop(); s0.c_to_s()
+    z0 = np.array(s0.s[1, names.index('z'), 0]); want = ~(va & vb)
+    z0[-1] &= tail; want[-1] &= tail
+    if not np.array_equal(z0, want):
+        raise Violation(f'm={m}, {sims} patterns: z != not(a and b) without callback')
+    return Obs(True, [f'm{m}', 'row_wider_than_65536_bytes'], checks=len(calls) + 2)
+
+
+PARTS = [Part('wide', prop_wide, enumerate=enum_wide, quick=(3, 0), thorough=(9, 0)),
+         Part('inject', prop, strategy=cases, quick=(8, 500), thorough=(16, 10000))]
